@@ -10,7 +10,6 @@ RUNNER = "run_c11"
 HARNESS_BIN = "c11"
 RELEASE_ALWAYS = True      # set_len on spare capacity: look at debug and release
 HOOKS = True               # harness built with --cfg etherparse_verif: IpDefragPool::verif_stats (add-only hook, /repo 40f4741)
-F8 = "F8_stored_fragment_beyond_late_end"
 RULE = ("one case = one delivery history. buf: IpDefragBuf::new(+stale vectors) then add(); after every add the return value, "
         "is_complete, end, data length, sections (in Vec order) and data (bytes outside every section masked) are compared with the model, "
         "verdict/completeness/payload with the Spec. pool: packets built and sliced by the crate (Ethernet, 0-3 VLAN tags, IPv4 / IPv6+fragment header), "
@@ -18,6 +17,10 @@ RULE = ("one case = one delivery history. buf: IpDefragBuf::new(+stale vectors) 
         "(quick 4, thorough 6) x duplicate deliveries (all single duplicates for k<=4, all double for k<=3, sampled beyond), random fragment soups "
         "(overlaps with different bytes, conflicting ends, unaligned, beyond 65535, empty payloads), 65535-byte datagrams, up to 4 interleaved streams "
         "whose ids differ in exactly one component, id reuse after completion, buffer return/reuse, eviction. "
+        "Regression class of the repaired finding F8 (a final fragment that ends below data stored while the total length was unknown must be "
+        "rejected with ConflictingEnd{largest stored end, its end}, buffer unchanged, in either order): 1-4 stored sections (gaps, overlaps, empty "
+        "fragments), final fragment ending below / inside / exactly at / beyond the largest stored end, then the rest of the datagram; directly and "
+        "through the pool. "
         "After EVERY pool operation verif_stats() = (active streams, pooled data vectors, pooled section vectors) is compared with the model's "
         "(|active|, |free data|, |free sections|) and, independently, with the bookkeeping the property prescribes (oracle: completion (a-1,d,s+1); "
         "first fragment (a+1,d-1,s-1) floored at 0; failing first fragment (a,max(1,d),max(1,s)); return (a,d+1,s); retain evicting n (a-n,d+n,s+n); "
@@ -35,11 +38,21 @@ PROJECTION = ("per delivery: verdict with all error fields, is_complete, end, da
 
 def corpus():
     return [
-        # finding F8 and its mirror image
+        # the repaired finding F8 and its mirror image: the second delivery is rejected in both orders
+        # (conflict:16:12 resp. conflict:12:16), the buffer stays as it was, the right final fragment still completes
         "buf 17 - 0 a:0:1:000102030405060708090a0b0c0d0e0f a:1:0:aabbccdd",
         "buf 17 - 0 a:1:0:aabbccdd a:0:1:000102030405060708090a0b0c0d0e0f",
-        # empty non-final fragment stored beyond the late end: never completes
+        "buf 17 - 0 a:0:1:000102030405060708090a0b0c0d0e0f a:1:0:aabbccdd a:1:0:aabbccdd a:1:0:08090a0b0c0d0e0f",
+        # final fragment overlapping the stored section from below its end (ends at 15 < 16), then exactly at the maximum (accepted)
+        "buf 17 - 0 a:0:1:000102030405060708090a0b0c0d0e0f a:1:0:aabbccddeeff11 a:0:0:00112233445566778899aabbccddee a:1:0:aabbccddeeff1122",
+        # several stored sections [0,8) [32,40) [16,24): the maximum (40) is reported; 39 rejected, 40 accepted
+        "buf 6 - 0 a:0:1:0102030405060708 a:4:1:292a2b2c2d2e2f30 a:2:1:1516171819202122 a:3:0:090909 a:4:0:09090909090909 a:4:0:0909090909090909 a:1:1:0908070605040302 a:3:1:0908070605040302",
+        # maximum is not the last section and not the first: [32,40) [0,8) [48,56) [16,24); end 48 rejected, end 57 accepted
+        "buf 6 ffffffffffffffffffffffffffffffffffffffff 2 a:4:1:292a2b2c2d2e2f30 a:0:1:0102030405060708 a:6:1:3132333435363738 a:2:1:1516171819202122 a:5:0:0909090909090909 a:7:0:77",
+        # empty non-final fragment stored beyond the end of the final one: the final one is rejected (conflict:16:8)
         "buf 17 - 0 a:2:1:- a:0:0:0001020304050607 a:0:1:0001020304050607",
+        # empty final fragment at the stored maximum is accepted; below it rejected
+        "buf 17 - 0 a:0:1:000102030405060708090a0b0c0d0e0f a:1:0:- a:2:0:-",
         # in order, reverse order, duplicate, with stale vectors handed to new()
         "buf 6 ffffffffffffffffffffffffffffffffffffffff 2 a:0:1:0001020304050607 a:1:1:08090a0b0c0d0e0f a:2:0:101112",
         "buf 6 ffffffffffffffffffffffffffffffffffffffff 2 a:2:0:101112 a:1:1:08090a0b0c0d0e0f a:1:1:08090a0b0c0d0e0f a:0:1:0001020304050607",
@@ -58,8 +71,12 @@ def corpus():
         "pool 3 4/-/0a000001/0a000002/7/17/0 4/-/0a000001/0a000002/8/17/0 4/-/0a000001/0a000002/9/17/0 "
         "p:0:0:1:1:0102030405060708 p:1:0:1:2:0102030405060708 p:1:1:0:3:09 p:2:0:1:4:010203 r rf:eeeeee t:ge:2 "
         "p:0:1:0:5:09 p:0:0:1:6:0102030405060708 t:lt:6 t:mod:1 t:ne:6 t:eq:6 t:none:0 t:all:0 p:2:8191:0:7:00000000000000000000000000000000",
-        # pool: F8 through the pool
-        "pool 1 4/-/0a000001/0a000002/7/17/0 p:0:0:1:1:000102030405060708090a0b0c0d0e0f p:0:1:0:1:aabbccdd",
+        # pool: the repaired F8 through the pool, both orders, v4 and v6; the entry survives the reject and completes afterwards
+        "pool 1 4/-/0a000001/0a000002/7/17/0 p:0:0:1:1:000102030405060708090a0b0c0d0e0f p:0:1:0:2:aabbccdd p:0:2:0:3:1011",
+        "pool 1 4/-/0a000001/0a000002/7/17/0 p:0:1:0:1:aabbccdd p:0:0:1:2:000102030405060708090a0b0c0d0e0f p:0:0:1:3:0001020304050607",
+        "pool 1 6/5/20010db8000000000000000000000001/20010db8000000000000000000000002/99/6/3 "
+        "p:0:0:1:1:000102030405060708090a0b0c0d0e0f p:0:4:1:2:2021222324252627 p:0:3:0:3:aabbccdd p:0:2:1:4:1011121314151617 "
+        "p:0:3:1:5:18191a1b1c1d1e1f p:0:5:0:6:28",
     ]
 
 
@@ -174,6 +191,92 @@ def _soup_cases(rng, n):
         steps = rng.range(1, 12)
         cases.append("buf %d %s %s" % (rng.below(256), _stale(rng),
                                        " ".join(_frag(*_soup_frag(rng, st)) for _ in range(steps))))
+    return cases
+
+
+def _late_end_frags(rng):
+    """one history of the regression class of the repaired finding F8: sections stored while the total length is unknown,
+    then final fragments ending below / inside / at / beyond the largest stored end, then the rest of the datagram"""
+    nsec = rng.range(1, 4)
+    units = rng.range(nsec, 9)
+    P = rng.bytes(units * 8 + rng.range(0, 7))
+    stored = []
+    hi = 0
+    for _ in range(nsec):
+        fo = rng.below(units)
+        n = rng.range(0, 2) if rng.chance(1, 6) else rng.range(1, 3)
+        n = min(n, units - fo)
+        data = P[fo * 8:(fo + n) * 8] if rng.chance(5, 6) else rng.bytes(n * 8)
+        stored.append((fo, True, data))
+        hi = max(hi, (fo + n) * 8)
+    out = list(stored)
+    for _ in range(rng.range(1, 3)):
+        k = rng.below(10)
+        if k < 5 and hi > 0:         # ends below the maximum (1 .. hi-1), any offset
+            e = rng.range(0, hi - 1)
+        elif k < 7:                  # exactly at the maximum: accepted
+            e = hi
+        elif k < 8 and hi > 0:       # one byte below
+            e = hi - 1
+        else:                        # beyond
+            e = hi + rng.range(1, 12)
+        fo = rng.below(e // 8 + 1)
+        if rng.chance(1, 5):
+            fo = e // 8
+        ln = e - fo * 8
+        data = (P + rng.bytes(16))[fo * 8:fo * 8 + ln] if rng.chance(2, 3) else rng.bytes(ln)
+        out.append((fo, False, data))
+    # the rest: the proper cut of P, shuffled (completes when the accepted end is len(P))
+    sizes = [1] * units if len(P) % 8 else [1] * (units - 1)
+    rest = _cut(P, sizes) if P else []
+    for i in range(len(rest) - 1, 0, -1):
+        j = rng.below(i + 1)
+        rest[i], rest[j] = rest[j], rest[i]
+    out += rest[:rng.range(0, len(rest))] if rng.chance(1, 3) else rest
+    if rng.chance(1, 4):             # mirror image: final fragment(s) first
+        fin = [f for f in out if not f[1]]
+        non = [f for f in out if f[1]]
+        out = fin[:1] + non + fin[1:]
+    return out
+
+
+def _late_end_cases(rng, n):
+    cases = []
+    for i in range(n):
+        fr = _late_end_frags(rng)
+        if i % 3 == 2:
+            # through the pool (a leading unfragmented final fragment at offset 0 would pass through: keep as is, the oracle knows)
+            v = 4 if rng.chance(1, 2) else 6
+            alen = 4 if v == 4 else 16
+            s = {"v": v, "vl": [rng.below(4096)] if rng.chance(1, 2) else [], "src": rng.bytes(alen), "dst": rng.bytes(alen),
+                 "ident": rng.below(65536), "proto": rng.choice([6, 17, 47]), "chan": rng.below(2)}
+            ops = ["p:0:%d:%d:%d:%s" % (f[0], 1 if f[1] else 0, t + 1, hx(f[2])) for t, f in enumerate(fr)]
+            cases.append("pool 1 %s %s" % (_sdef(s), " ".join(ops)))
+        else:
+            cases.append("buf %d %s %s" % (rng.below(256), _stale(rng), " ".join(_frag(*f) for f in fr)))
+    return cases
+
+
+def _late_end_enum():
+    """exhaustive small grid: one or two stored 8-byte-unit sections (offsets 0..3, lengths 0..2 units), then every final
+    fragment with offset 0..4 and length 0..9 -- both orders"""
+    cases = []
+    for fo1 in range(4):
+        for n1 in range(3):
+            for zfo in range(5):
+                for zl in range(10):
+                    a = _frag(fo1, True, bytes((fo1 * 8 + i) & 255 for i in range(n1 * 8)))
+                    z = _frag(zfo, False, bytes((0xa0 + i) & 255 for i in range(zl)))
+                    cases.append("buf 17 - 0 %s %s" % (a, z))
+                    cases.append("buf 17 - 0 %s %s" % (z, a))
+    for fo1, fo2 in ((0, 2), (2, 0), (1, 3), (3, 1), (0, 1), (2, 2)):
+        for zfo in range(5):
+            for zl in range(0, 10, 3):
+                a = _frag(fo1, True, bytes(8))
+                b = _frag(fo2, True, bytes(range(8)))
+                z = _frag(zfo, False, bytes((0xa0 + i) & 255 for i in range(zl)))
+                for order in ((a, b, z), (a, z, b), (z, a, b)):
+                    cases.append("buf 17 - 0 %s" % " ".join(order))
     return cases
 
 
@@ -449,6 +552,8 @@ def gen_cases(rng, tier):
     cases = []
     cases += _perm_cases(rng, 6 if big else 4, big)
     cases += _soup_cases(rng, 200000 if big else 6000)
+    cases += _late_end_enum()
+    cases += _late_end_cases(rng, 60000 if big else 3000)
     cases += _big_cases(rng, 20 if big else 2)
     cases += _pool_perm_cases(rng, 5 if big else 4)
     cases += _pool_cases(rng, 200000 if big else 4000, 4)
@@ -558,7 +663,8 @@ def _fields(step):
 def compare(ctx, cases, impl, model_lines):
     corr, orc = [], []
     hist = {"buf": 0, "pool": 0, "steps<=4": 0, "steps<=8": 0, "steps>8": 0, "completions": 0, "err:toobig": 0,
-            "err:unaligned": 0, "err:conflict": 0, "known_F8_histories": 0, "spec_evaluated": 0, "ret1": 0, "retain": 0,
+            "err:unaligned": 0, "err:conflict": 0, "late_end_reject_histories": 0, "late_end_rejects": 0,
+            "final_fragment_at_stored_maximum_accepted": 0, "spec_evaluated": 0, "ret1": 0, "retain": 0,
             "max_data_len": 0, "stats_checked": 0, "retain_evictions": 0, "failing_first_fragment": 0, "foreign_return": 0,
             "late_fragment_after_eviction": 0, "stats_unobserved_lines": 0}
     seen = set()
@@ -625,33 +731,45 @@ def compare(ctx, cases, impl, model_lines):
             # oracle: implementation against the Spec, step by step
             if s is None or s == "-":
                 continue
-            if first is False and prof == list(impl.keys())[0]:
+            first_prof = list(impl.keys())[0]
+            if first is False and prof == first_prof:
                 hist["spec_evaluated"] += 1
             sst = _steps(s)
             if len(sst) != len(ist):
                 orc.append((i, "%s: %d steps from the implementation, %d from the Spec" % (prof, len(ist), len(sst)), None))
                 continue
+            nlate = 0
             for j, (a, b) in enumerate(zip(ist, sst)):
                 if kind == "buf":
                     av, af = _fields(a)
                     bv, bf = _fields(b)
-                    late = bv.startswith("late")
+                    late = bf.get("l") == "1"
                     ok = (av == bv and af.get("c") == bf.get("c") and (bf.get("c") != "1" or af.get("d") == bf.get("p")))
+                    if j > 0 and ok and av == "ok" and prof == first_prof:
+                        # a final fragment accepted while the end was unknown and data was stored: it ends at or beyond the maximum
+                        pv, pf = _fields(ist[j - 1])
+                        if pf.get("e") == "-" and af.get("e") not in (None, "-") and pf.get("n") == af.get("e") != "0":
+                            hist["final_fragment_at_stored_maximum_accepted"] += 1
                 else:
                     ia, istat = _split_stats(a)
                     b, _, bact = b.partition(" act=")
+                    late = b.endswith(" late=1")
+                    if late:
+                        b = b[:-len(" late=1")]
                     a = ia
-                    late = b.startswith("err:late")
                     ok = ((a == b) or b == "-") and (istat is None or not bact or istat[0] == int(bact))
                 if late:
-                    if not ok:
-                        orc.append((i, "%s: delivery %d: a final fragment ends below data accepted earlier (%s); "
-                                       "Spec rejects, implementation answers '%s'" % (prof, j, b, a[:80]), F8))
-                        if prof == list(impl.keys())[0]:
-                            hist["known_F8_histories"] += 1
-                    break    # the Spec state and the implementation state differ from here on
+                    nlate += 1
                 if not ok:
-                    orc.append((i, "%s: delivery %d: implementation '%s', Spec '%s'" % (prof, j, a[:160], b[:160]), None))
+                    # no known class any more: the former finding F8 (a final fragment that ends below data accepted earlier is
+                    # not rejected) is a violation like every other difference
+                    orc.append((i, "%s: delivery %d: implementation '%s', Spec '%s'%s" % (
+                        prof, j, a[:160], b[:160],
+                        " (a final fragment ends below data accepted earlier: the Spec demands ConflictingEnd, buffer unchanged)"
+                        if late else ""), None))
                     break
+            if prof == first_prof and nlate:
+                hist["late_end_reject_histories"] += 1
+                hist["late_end_rejects"] += nlate
     return {"corr_mismatch": corr, "oracle_fail": orc, "hist": hist, "nontrivial": nontriv,
             "samples": [cases[0][:300], cases[len(cases) // 2][:300], cases[-1][:300]]}
